@@ -52,7 +52,10 @@ pub fn grammar() -> Vec<Case> {
         uris.push((format!("http://{h}/p?q=1"), "absolute-http"));
         uris.push((format!("https://{h}/p"), "absolute-https"));
         uris.push((format!("https://{h}"), "absolute-https"));
+        // empty path directly followed by a query
+        uris.push((format!("http://{h}?x=1"), "absolute-http"));
     }
+    uris.push(("https://example.com?".into(), "absolute-https"));
     uris.push(("wss://example.com/socket".into(), "absolute-wss"));
     uris.push(("ftp://example.com/file".into(), "absolute-other-scheme"));
     uris.push(("/p?q=1".into(), "origin-form"));
